@@ -270,3 +270,36 @@ func VerifC11Handlers() {
 		vassert(stateAtB == fa, "the state written before the interrupt is what handlers see after resume")
 	}
 }
+
+// a node typed any that returns nil: its post-handler still runs and what it returns is what successors receive
+func VerifC11NilOutput() {
+	ctx := context.Background()
+	vcfg("fifo", 1)
+	dag := vchoose("dag", 2) == 1
+	seen := 0
+	g := NewGraph[int, any](WithGenLocalState(c11Gen))
+	_ = g.AddLambdaNode("lookup", InvokableLambda(func(ctx context.Context, in int) (any, error) { return nil, nil }),
+		WithStatePostHandler(func(ctx context.Context, out any, s *c11State) (any, error) {
+			s.Cnt++
+			seen = s.Cnt
+			if out == nil {
+				return "fallback", nil
+			}
+			return out, nil
+		}))
+	got := any(nil)
+	_ = g.AddLambdaNode("render", InvokableLambda(func(ctx context.Context, in any) (any, error) { got = in; return in, nil }))
+	_ = g.AddEdge(START, "lookup")
+	_ = g.AddEdge("lookup", "render")
+	_ = g.AddEdge("render", END)
+	var opts []GraphCompileOption
+	if dag {
+		opts = append(opts, WithNodeTriggerMode(AllPredecessor))
+	}
+	r, err := g.Compile(ctx, opts...)
+	vassert(err == nil, "graph compiles")
+	out, rerr := r.Invoke(ctx, 1)
+	vassert(rerr == nil, "run succeeds")
+	vassert(seen == 1, "the post-handler runs after its node also when the node returned a nil interface value")
+	vassert(got == "fallback" && out == "fallback", "successors receive what the post-handler returned")
+}
